@@ -33,9 +33,16 @@ type vkC10Case struct {
 	CutA   int      `json:"cut_a"` // 0 = whole stream in one read
 	CutB   int      `json:"cut_b"`
 	Order  string   `json:"order"` // string over {a,b}: whose next event (read, read, close) happens
+	// Seq: connection A lives and DIES (the peer closes after CloseA bytes, possibly in the middle of a frame or of a
+	// length prefix) before connection B is accepted: B draws the stream, slab and pooled objects A has just released
+	Seq    bool `json:"seq,omitempty"`
+	CloseA int  `json:"close_a,omitempty"`
 }
 
 func (c vkC10Case) String() string {
+	if c.Seq {
+		return fmt.Sprintf("slabs=%d seq A=[%s] cut=%d close=%d then B=[%s]", c.Slabs, strings.Join(c.KindsA, ","), c.CutA, c.CloseA, strings.Join(c.KindsB, ","))
+	}
 	return fmt.Sprintf("slabs=%d A=[%s]@%d B=[%s]@%d order=%s", c.Slabs, strings.Join(c.KindsA, ","), c.CutA, strings.Join(c.KindsB, ","), c.CutB, c.Order)
 }
 
@@ -173,6 +180,81 @@ func vkRunC10Case(w *vkSrvWorld, tc vkC10Case) (viol, herr, outcome string, skip
 	return "", "", fmt.Sprintf("replies=%d slabs-live=%d", nrep, w.tcp.smallCache.size()+w.tcp.largeCache.size()), false
 }
 
+// vkRunC10Seq: A's whole life first (reads up to CloseA, one cut, peer close), then B's.
+func vkRunC10Seq(w *vkSrvWorld, tc vkC10Case) (viol, herr, outcome string) {
+	fa, sa, ea := vkBuildFrames(tc.KindsA, vkTagA)
+	fb, sb, _ := vkBuildFrames(tc.KindsB, vkTagB)
+	if tc.CloseA < 1 || tc.CloseA > len(sa) {
+		return "", fmt.Sprintf("bad close point %d", tc.CloseA), ""
+	}
+	w.newTCP(tc.Slabs)
+	defer func() { w.purge(fa); w.purge(fb) }()
+	ca := vkNewConn(vkTagA, 1)
+	if h := w.start(ca); h != "" {
+		return "", h, ""
+	}
+	exited := false
+	bounds := []int{tc.CloseA}
+	if tc.CutA > 0 && tc.CutA < tc.CloseA {
+		bounds = []int{tc.CutA, tc.CloseA}
+	}
+	prev := 0
+	for _, b := range bounds {
+		ev, h := ca.deliver(sa[prev:b])
+		if h != "" {
+			return "", h, ""
+		}
+		prev = b
+		if ev == "exit" {
+			exited = true
+			break
+		}
+	}
+	if !exited {
+		if h := ca.eof(); h != "" {
+			return "", h, ""
+		}
+	}
+	var completeA []vkFrame
+	for i, e := range ea {
+		if e <= prev {
+			completeA = append(completeA, fa[i])
+		}
+	}
+	cb := vkNewConn(vkTagB, 2)
+	if h := w.start(cb); h != "" {
+		return "", h, ""
+	}
+	if ev, h := cb.deliver(sb); h != "" {
+		return "", h, ""
+	} else if ev != "exit" {
+		if h := cb.eof(); h != "" {
+			return "", h, ""
+		}
+	}
+	outA, _ := ca.output()
+	outB, _ := cb.output()
+	if v := vkJudgeStream(vkTagA, completeA, outA, [][]byte{[]byte(vkTagB)}); v != "" {
+		return "connection A: " + v, "", "violation"
+	}
+	if v := vkJudgeStream(vkTagB, fb, outB, [][]byte{[]byte(vkTagA)}); v != "" {
+		return "connection B, accepted after A had gone: " + v, "", "violation"
+	}
+	if v := w.tcpQuiesced(); v != "" {
+		return "after both connections closed: " + v, "", "violation"
+	}
+	frs, _ := vkSplitFrames(outB)
+	return "", "", fmt.Sprintf("seq: residue=%d repliesB=%d", len(sa[:prev])-func() int {
+		last := 0
+		for _, e := range ea {
+			if e <= prev {
+				last = e
+			}
+		}
+		return last
+	}(), len(frs))
+}
+
 // vkInterleavings lists every merge of na events of 'a' with nb events of 'b'.
 func vkInterleavings(na, nb int) []string {
 	if na == 0 {
@@ -217,7 +299,12 @@ func TestVerifC10TCP(t *testing.T) {
 			c.HarnessError(h)
 			return
 		}
-		v, h, _, _ := vkRunC10Case(w, tc)
+		var v string
+		if tc.Seq {
+			v, h, _ = vkRunC10Seq(w, tc)
+		} else {
+			v, h, _, _ = vkRunC10Case(w, tc)
+		}
 		if h != "" {
 			c.HarnessError(h)
 		} else if v != "" {
@@ -247,6 +334,65 @@ func TestVerifC10TCP(t *testing.T) {
 	}
 	item := 0
 	stop := false
+	// sequential family: A is closed by its peer at every interesting offset (whole frames, mid-prefix, mid-body), one cut,
+	// then B is accepted and sends its frames
+	for _, ka := range append(append([][]string{}, seqs1...), seqs2...) {
+		for _, kb := range [][]string{{"hit"}, {"miss"}, {"hit", "miss"}} {
+			item++
+			if !c.Mine(item) || stop {
+				continue
+			}
+			if c.OverBudget() {
+				c.Cap("time budget reached")
+				stop = true
+				continue
+			}
+			fr, st, _ := vkBuildFrames(ka, vkTagA)
+			closes := append(vkInteresting(fr), len(st))
+			for _, slabs := range []int{1, 2} {
+				w, h := world(slabs, false)
+				if h != "" {
+					c.HarnessError(h)
+					return
+				}
+				for _, cl := range closes {
+					if cl > len(st) {
+						continue
+					}
+					for _, cut := range []int{0, 1, 3} {
+						tc := vkC10Case{Slabs: slabs, Seq: true, KindsA: ka, KindsB: kb, CutA: cut, CloseA: cl}
+						v, h, out := vkRunC10Seq(w, tc)
+						if h != "" {
+							c.HarnessError(tc.String() + ": " + h)
+							return
+						}
+						c.Add("evaluations", 1)
+						c.Add("traces", 1)
+						c.Outcome(out)
+						c.DistinctStr("states", "seq|"+tc.String())
+						if strings.Contains(out, "residue=") && !strings.Contains(out, "residue=0 ") {
+							c.DistinctStr("nontrivial", "seq|"+tc.String())
+						}
+						if v != "" {
+							w2, h2 := world(slabs, true)
+							if h2 != "" {
+								c.HarnessError(h2)
+								return
+							}
+							if v2, _, _ := vkRunC10Seq(w2, tc); v2 == "" {
+								c.Add("dropped_unreproducible", 1)
+								continue
+							}
+							c.Violation("c10tcp:seq:"+strings.Join(ka, ",")+">"+strings.Join(kb, ","), v+"\n    case: "+tc.String(), tc)
+							if c.NumViolations() > 6 {
+								stop = true
+							}
+						}
+					}
+				}
+			}
+		}
+	}
 	for _, p := range pairs {
 		for _, ka := range p.a {
 			for _, kb := range p.b {
